@@ -237,6 +237,9 @@ def make_machine_base():
             _CURRENT["stats"].machine_begin()
 
         def do(self, op):
+            if _CURRENT["stats"].over_budget():      # bounded by a budget like every other sub-check: the rest is skipped (inconclusive tail)
+                _CURRENT["stats"].skipped += 1
+                return None
             self.log.append(op)
             try:
                 return self.interp.apply(op)
